@@ -3,7 +3,17 @@
 import json, os, subprocess, sys
 V = os.path.dirname(os.path.dirname(os.path.abspath(__file__)))
 
+E1_NOTE = ("Bounds: nesting depth <= 2 over the full leaf set plus depth 3 over a reduced base (thorough: depth 3 over 11 leaves); values = members + "
+           "all single deviations + a fixed pool; every spelling of every expression. Trusted: the reference model / oracle in /verif/mc "
+           "(written from docs and the property text; UNSPEC cells are counted, not judged).")
+
 CHECKS = {
+    'C01': ("bounded-exhaustive type-grammar x spelling x value enumeration on the real converters, compared cell by cell with an executable reference model",
+            "All type expressions of a finite grammar (47 leaves incl. 12 generated dataclasses, 16 constructors, every equivalent spelling) up to the tier's depth are "
+            "crossed with a complete finite value universe (members, every single-deviation neighbour, a fixed pool of arbitrary interchange values); every cell calls "
+            "pane.from_data and is compared with the reference model's verdict and exactly-typed image; a freshly built converter must agree with the memoised one. "
+            "This visits every parent x child x grandchild combination of converters, which is where the acceptance defects live, and no example-based test can.",
+            E1_NOTE),
     # id: (technique, level text, level note)
     'C20': ("bounded-exhaustive enumeration of all identifiers (<=3/4 words over a 3-letter alphabet) x styles on the real rename code, algebraic-law oracle",
             "Every snake_case identifier of up to 3 (quick) / 4 (thorough) words of 2-3 letters over {a,b,z} is pushed through all 5 styles and all 25 style pairs on the real code; canonical form, idempotence, inverse and composition laws are checked on every one, malformed shapes must raise ValueError, and the class-level rename path is exercised on generated classes. The space is finite and fully enumerated, which is the right level for a pure string function whose failure modes are word-boundary patterns that all occur within 3-4 short words.",
